@@ -2,6 +2,8 @@ import RawPanelVerif.Props.C16
 import RawPanelVerif.Lemmas.MonoCompl
 import RawPanelVerif.Model.Tile
 import RawPanelVerif.Spec.TileSpec
+import RawPanelVerif.Lemmas.TileBar
+import RawPanelVerif.Lemmas.TileCentre
 /-!
 # C18 — Tile rendering is total, deterministic, clipped and inversion-exact
 
@@ -22,11 +24,28 @@ mode, icons, scale, fonts, sizes, strings, integers, colours, absent sub-message
                      the operation list does not depend on `Inverted`, and every operation maps complementary canvases to
                      complementary canvases (Lemmas/MonoCompl.lean)
 
-NOT YET PROVED (validated by the correspondence on every run): `bar_monotone` (needs monotonicity of the correctly
-rounded double operations) and the ink-based `centreOk`.
+* `bar_monotone` (clause `bar`, `Spec.Tile.checkBar`): scale type 1, positive range (`0 < int32(RangeHigh-RangeLow)`),
+                     value text unchanged (`bar_monotone_hidden`: value hidden, the harness's bar pairs), `v1 ≤ v2`,
+                     everything else equal, for **all** integers / ranges / geometries: no pixel lit at `v1` is dark at
+                     `v2`.  Ingredients: the correctly rounded binary64 operations of Base/Dbl.lean are monotone
+                     (Lemmas/DblMono.lean: `divRNE_mono`, `rnD_mono`, `trunc_mulInt_rn_mono`), so the bar length is
+                     (`bar_length_monotone`, within its extent: `bar_length_in_extent`); every layout step only appends
+                     operations, and every drawing primitive is monotone in the canvas contents (Lemmas/MonoSub.lean,
+                     Lemmas/TileBar.lean).  `bar_reversed_range_counterexample`: the range hypothesis is needed.
+* `centre_ok_partial` (clause `centre`, `Spec.Tile.centreOk`): formats 10/11, strings without LF/CR and with
+                     alphanumeric first/last characters (the Spec's own domain), **plus the hypothesis that every
+                     rendered text box fits the active area** (`TileTextFits`): the first and last lit column of each
+                     row band are exactly the ends of the text box (`text_ink_extent`, from `edge_facts*` over the
+                     regenerated font tables), hence the margins differ by at most one pixel.
+                     `tile_check_partial`: all clauses of `Spec.Tile.check` together under these hypotheses.
+
+NOT YET PROVED (validated on the real renderer's output on every run): `centreOk` without `TileTextFits`, i.e. from
+the Spec's own guard alone ("the observed ink is strictly inside the active area"): that needs, for clipped texts, that
+ink cut off at an edge of the active area leaves visible ink touching that edge (a per-glyph vertical connectivity
+fact); no counterexample is known.
 -/
 namespace RawPanelVerif.C18
-open RawPanelVerif RawPanelVerif.Mono RawPanelVerif.Tile RawPanelVerif.C16
+open RawPanelVerif RawPanelVerif.Mono RawPanelVerif.Tile RawPanelVerif.C16 RawPanelVerif.C20
 
 /-- any sequence of drawing operations only touches the clip rectangle -/
 theorem draws_touch (ops : List Op) (hd : ∀ op ∈ ops, Op.isDraw op = true) (c : Canvas) (hwf : c.WF) :
@@ -305,5 +324,539 @@ theorem icon_index_guarded : Gen.icons8by8.size = 7 := by decide
 /-- The pinned tree evaluated `buttonColors[index]` before the length test (`su.Qint` is strict in both arguments):
 for colour index 19 the access is out of range in a table of 19 entries. -/
 theorem colour_index_pinned_counterexample : Gen.buttonColors.size = 19 ∧ ¬ (19 < Gen.buttonColors.size) := by decide
+
+/-! ## bar -/
+
+/-- the byte slice of a rendered canvas as the harness prints it -/
+def canvasBytes (c : Canvas) : Array UInt8 := c.bytes.map (fun b => UInt8.ofNat b.toNat)
+
+theorem bit_u8 (b : BitVec 8) (k : Nat) : (((UInt8.ofNat b.toNat).toNat >>> k) % 2 == 1) = b.getLsbD k := by
+  have h : (UInt8.ofNat b.toNat).toNat = b.toNat := by
+    simp
+  rw [h, Nat.shiftRight_eq_div_pow, BitVec.getLsbD, Nat.testBit_eq_decide_div_mod_eq]
+  generalize b.toNat / 2 ^ k % 2 = x
+  by_cases hx : x = 1 <;> simp [hx]
+
+theorem bitAt_canvasBytes (c : Canvas) (X Y : Nat) :
+    Spec.Tile.bitAt c.geo.wib (canvasBytes c) X Y = getPx c X Y := by
+  unfold Spec.Tile.bitAt canvasBytes getPx
+  simp only [Array.getD_eq_getD_getElem?, Array.getElem?_map]
+  cases h : c.bytes[Y * c.geo.wib + X / 8]? with
+  | none => simp
+  | some b => simp only [Option.map_some, Option.getD_some]; exact bit_u8 b _
+
+
+theorem renderTile_geo (inp : TileIn) (inv : Bool) (w h : Nat) (shrink border : Int) :
+    (renderTile inp inv w h shrink border).geo =
+      { W := w, H := h, wib := (w + 7) / 8, bx := border, byy := border,
+        bw := (activeWH w h shrink border).1, bh := (activeWH w h shrink border).2, inv := inv } := by
+  rw [renderTile_unfold]
+  obtain ⟨hwf1, hg1, _⟩ := blackout w h inv
+  generalize hc1 : applyOp (invertPixels (newCanvas w h) inv) (.frect 0 0 w h false) = c1 at hwf1 hg1
+  have hwf2 : (setBoundingBox c1 border border (activeWH w h shrink border).1 (activeWH w h shrink border).2).WF := by
+    unfold setBoundingBox Canvas.WF at *; simpa using hwf1
+  have t := draws_touch _ (layoutOps_draw inp w h shrink border) _ hwf2
+  rw [t.geo]
+  unfold setBoundingBox; simp only []; rw [hg1]; rfl
+
+/-- raising the value (value text unchanged, scale type 1, positive range) only adds lit pixels -/
+theorem renderTile_sub (inp : TileIn) (v2 : Int) (inv : Bool) (w h : Nat) (shrink border : Int)
+    (hval : valueString inp.fmt inp.intVal = valueString inp.fmt v2)
+    (ht : (inp.scale.getD {}).stype = 1) (hr : 0 < i32 ((inp.scale.getD {}).rh - (inp.scale.getD {}).rl))
+    (hv : inp.intVal ≤ v2) :
+    Sub (renderTile inp inv w h shrink border) (renderTile (setVal inp v2) inv w h shrink border) := by
+  rw [renderTile_unfold, renderTile_unfold]
+  obtain ⟨hwf1, _, _⟩ := blackout w h inv
+  generalize applyOp (invertPixels (newCanvas w h) inv) (.frect 0 0 w h false) = c1 at hwf1
+  have hwf2 : (setBoundingBox c1 border border (activeWH w h shrink border).1 (activeWH w h shrink border).2).WF := by
+    unfold setBoundingBox Canvas.WF at *; simpa using hwf1
+  exact (tileAcc_R inp v2 w h shrink border hval ht hr hv).sub _ _ (Sub.refl _ hwf2)
+
+/-- **bar** (`Spec.Tile.checkBar`): scale type 1 with a positive range (`0 < int32(RangeHigh - RangeLow)`), value text
+unchanged (e.g. hidden, `FMT_HIDE`), everything else equal: for `v1 ≤ v2` no pixel lit in the rendering at `v1` is
+dark in the rendering at `v2` — for every text state, geometry, inversion, and all integers `v1`, `v2`, range bounds
+(the bar length goes through correctly rounded double division/multiplication and truncation). -/
+theorem bar_monotone (inp : TileIn) (v2 : Int) (inv : Bool) (w h : Nat) (shrink border : Int)
+    (hval : valueString inp.fmt inp.intVal = valueString inp.fmt v2)
+    (ht : (inp.scale.getD {}).stype = 1) (hr : 0 < i32 ((inp.scale.getD {}).rh - (inp.scale.getD {}).rl))
+    (hv : inp.intVal ≤ v2) :
+    Spec.Tile.checkBar (specCase inp inv w h shrink border)
+      (canvasBytes (renderTile inp inv w h shrink border))
+      (canvasBytes (renderTile (setVal inp v2) inv w h shrink border)) = none := by
+  have hs := renderTile_sub inp v2 inv w h shrink border hval ht hr hv
+  have g1 := renderTile_geo inp inv w h shrink border
+  have g2 := renderTile_geo (setVal inp v2) inv w h shrink border
+  have z1 := (tile_size_ok inp inv w h shrink border).1.2.2
+  have z2 := (tile_size_ok (setVal inp v2) inv w h shrink border).1.2.2
+  generalize renderTile inp inv w h shrink border = A1 at *
+  generalize renderTile (setVal inp v2) inv w h shrink border = A2 at *
+  unfold Spec.Tile.checkBar
+  have hsz : (canvasBytes A1).size = (canvasBytes A2).size := by
+    unfold canvasBytes; rw [Array.size_map, Array.size_map, z1, z2]
+  rw [if_neg (by rw [hsz]; simp)]
+  have hany : (Spec.Tile.pixels (specCase inp inv w h shrink border)).any (fun p =>
+      (Spec.Tile.bitAt (Spec.Tile.wib (specCase inp inv w h shrink border)) (canvasBytes A1) p.1 p.2
+          != (specCase inp inv w h shrink border).inverted) &&
+        !(Spec.Tile.bitAt (Spec.Tile.wib (specCase inp inv w h shrink border)) (canvasBytes A2) p.1 p.2
+          != (specCase inp inv w h shrink border).inverted)) = false := by
+    rw [List.any_eq_false]
+    intro p hp
+    have hpx : p.1 < w ∧ p.2 < h := by
+      unfold Spec.Tile.pixels specCase at hp
+      simp only [List.mem_flatMap, List.mem_range, List.mem_map] at hp
+      obtain ⟨Y, hY, X, hX, rfl⟩ := hp
+      exact ⟨hX, hY⟩
+    have w1 : Spec.Tile.wib (specCase inp inv w h shrink border) = A1.geo.wib := by rw [g1]; rfl
+    have w2 : Spec.Tile.wib (specCase inp inv w h shrink border) = A2.geo.wib := by rw [g2]; rfl
+    have i1 : (specCase inp inv w h shrink border).inverted = A1.geo.inv := by rw [g1]; rfl
+    rw [i1]
+    conv => enter [1, 1, 1, 1, 1]; rw [w1]
+    conv => enter [1, 1, 2, 1, 1, 1]; rw [w2]
+    rw [bitAt_canvasBytes, bitAt_canvasBytes]
+    have := hs.vis p.1 p.2 (by rw [g1]; exact hpx.1) (by rw [g1]; exact hpx.2)
+    cases hb : (getPx A1 p.1 p.2 != A1.geo.inv) with
+    | false => simp
+    | true => rw [this hb]; simp
+  rw [hany]
+  simp
+
+
+/-- value hidden (`FMT_HIDE`, the harness's bar pairs): the instance of `bar_monotone` the driver evaluates -/
+theorem bar_monotone_hidden (inp : TileIn) (v2 : Int) (inv : Bool) (w h : Nat) (shrink border : Int)
+    (hf : inp.fmt = 7)
+    (ht : (inp.scale.getD {}).stype = 1) (hr : 0 < i32 ((inp.scale.getD {}).rh - (inp.scale.getD {}).rl))
+    (hv : inp.intVal ≤ v2) :
+    Spec.Tile.checkBar (specCase inp inv w h shrink border)
+      (canvasBytes (renderTile inp inv w h shrink border))
+      (canvasBytes (renderTile (setVal inp v2) inv w h shrink border)) = none := by
+  refine bar_monotone inp v2 inv w h shrink border ?_ ht hr hv
+  unfold valueString
+  rw [hf]
+  rfl
+
+/-- the bar length the model computes (`scaleBar_eq`: `scaleBar` draws the type-1 in-fill with exactly this width),
+`ConstrainValue(int(float64(v - low)/float64(range)*float64(activeWidth)), 0, activeWidth)` in correctly rounded
+binary64 arithmetic, is monotone in the value for every positive range and every width ≥ 0 … -/
+theorem bar_length_monotone (v1 v2 low range activeWidth : Int) (hr : 0 < range) (hw : 0 ≤ activeWidth) (hv : v1 ≤ v2) :
+    barLen (v1 - low) range activeWidth ≤ barLen (v2 - low) range activeWidth :=
+  barLen_mono _ _ _ _ hr hw (by omega)
+
+/-- … and stays within the bar's extent -/
+theorem bar_length_in_extent (v low range activeWidth : Int) (hw : 0 ≤ activeWidth) :
+    0 ≤ barLen (v - low) range activeWidth ∧ barLen (v - low) range activeWidth ≤ activeWidth :=
+  barLen_range _ _ _ hw
+
+/-- the range hypothesis is needed: for a reversed range the bar shrinks when the value grows (as it should) -/
+theorem bar_reversed_range_counterexample :
+    barLen (70 - 100) (i32 (0 - 100)) 64 < barLen (30 - 100) (i32 (0 - 100)) 64 := by decide +kernel
+
+/-- non-vacuity: a 64×32 tile, hidden value 30 → 70 in the range 0..100 — the hypotheses hold, and the bar really grows -/
+example :
+    let inp : TileIn := { fmt := 7, intVal := 30, title := [65], scale := some { stype := 1, rl := 0, rh := 100, ll := 0, lh := 100 } }
+    inp.fmt = 7 ∧ (inp.scale.getD {}).stype = 1 ∧ 0 < i32 ((inp.scale.getD {}).rh - (inp.scale.getD {}).rl) ∧
+      inp.intVal ≤ 70 ∧ barLen (30 - 0) 100 64 = 19 ∧ barLen (70 - 0) 100 64 = 44 := by decide +kernel
+
+/-- big ranges (the product value·width exceeds 32 bits; the quotient is not exactly representable) -/
+example : barLen 100000000 2000000000 128 = 6 ∧ barLen 1999999999 2000000000 128 = 127 ∧
+    barLen 2000000000 2000000000 128 = 128 := by decide +kernel
+
+/-! ## centre -/
+
+/-- the canvas the layout operations start from: blank, bounding box = active area -/
+def startCanvas (inv : Bool) (w h : Nat) (shrink border : Int) : Canvas :=
+  setBoundingBox (applyOp (invertPixels (newCanvas w h) inv) (.frect 0 0 w h false)) border border
+    (activeWH w h shrink border).1 (activeWH w h shrink border).2
+
+def tileGeo (inv : Bool) (w h : Nat) (shrink border : Int) : Geom :=
+  { W := w, H := h, wib := (w + 7) / 8, bx := border, byy := border,
+    bw := (activeWH w h shrink border).1, bh := (activeWH w h shrink border).2, inv := inv }
+
+theorem startCanvas_facts (inv : Bool) (w h : Nat) (shrink border : Int) :
+    (startCanvas inv w h shrink border).WF ∧ (startCanvas inv w h shrink border).geo = tileGeo inv w h shrink border ∧
+    ∀ X Y, X < w → Y < h → getPx (startCanvas inv w h shrink border) X Y = inv := by
+  obtain ⟨hwf1, hg1, hblank⟩ := blackout w h inv
+  unfold startCanvas
+  generalize applyOp (invertPixels (newCanvas w h) inv) (.frect 0 0 w h false) = c1 at hwf1 hg1 hblank
+  refine ⟨?_, ?_, ?_⟩
+  · unfold setBoundingBox Canvas.WF at *; simpa using hwf1
+  · unfold setBoundingBox tileGeo; simp only []; rw [hg1]; rfl
+  · intro X Y hX hY
+    have : getPx (setBoundingBox c1 border border (activeWH w h shrink border).1 (activeWH w h shrink border).2) X Y
+        = getPx c1 X Y := by unfold getPx setBoundingBox; simp
+    rw [this]; exact hblank X Y hX hY
+
+theorem tileGeo_box (inv : Bool) (w h : Nat) (shrink border : Int) (hb : 0 ≤ border) :
+    BoxOnCanvas (tileGeo inv w h shrink border) := by
+  unfold tileGeo activeWH qint
+  by_cases hbo : border > 0
+  · refine ⟨hb, hb, ?_, ?_⟩ <;> simp only [hbo, decide_true, if_true] <;> omega
+  · refine ⟨hb, hb, ?_, ?_⟩ <;> simp only [hbo, decide_false, Bool.false_eq_true, if_false] <;> split <;> omega
+
+/-- lit pixels after rendering one text on the start canvas = the text's ink region -/
+theorem text_on_start (inv : Bool) (w h : Nat) (shrink border : Int) (t : TextSt) (s : List Nat)
+    (hs : 10 ∉ s) (hw : t.wrap = false) (hc : t.tcol = true) (hbg : t.tbg = true) (X Y : Nat) (hX : X < w) (hY : Y < h) :
+    (getPx (renderText (startCanvas inv w h shrink border, t) s).1 X Y ≠ inv) ↔
+      textR (tileGeo inv w h shrink border) t s X Y := by
+  obtain ⟨hwf, hg, hblank⟩ := startCanvas_facts inv w h shrink border
+  have p := renderText_paint s hs _ hwf t hw (by rw [hbg, hc])
+  rw [hg] at p
+  have hX8 : X < (startCanvas inv w h shrink border).geo.wib * 8 := by rw [hg]; unfold tileGeo; simp only []; omega
+  have hY' : Y < (startCanvas inv w h shrink border).geo.H := by rw [hg]; exact hY
+  by_cases hr : textR (tileGeo inv w h shrink border) t s X Y
+  · have := p.inside X Y hX8 hY' hr
+    rw [this, hc]
+    have : (tileGeo inv w h shrink border).inv = inv := rfl
+    rw [this]
+    cases inv <;> simp [hr]
+  · have := p.same X Y hX8 hY' hr
+    rw [this, hblank X Y hX hY]
+    simp [hr]
+
+
+/-- first and last character are ASCII letters or digits (the Spec's `edgeInk`; vacuous for the empty string) -/
+def edgeAlnum (s : List Nat) : Bool :=
+  match s.head?, s.getLast? with
+  | some a, some b => alnum a && alnum b
+  | _, _ => true
+
+theorem edge_decomp (s : List Nat) (hne : s ≠ []) (he : edgeAlnum s = true) :
+    ∃ c0 rest pre cL, s = c0 :: rest ∧ s = pre ++ [cL] ∧ alnum c0 = true ∧ alnum cL = true := by
+  cases s with
+  | nil => exact absurd rfl hne
+  | cons c0 rest =>
+    have hl : (c0 :: rest).getLast? = some ((c0 :: rest).getLast hne) := List.getLast?_eq_some_getLast hne
+    unfold edgeAlnum at he
+    rw [hl] at he
+    simp only [List.head?_cons, Bool.and_eq_true] at he
+    exact ⟨c0, rest, (c0 :: rest).dropLast, (c0 :: rest).getLast hne, rfl,
+      (List.dropLast_concat_getLast hne).symm, he.1, he.2⟩
+
+theorem glyphR_clip (g : Geom) (t : TextSt) (x y : Int) (ch : Nat) (h v : Int) (X Y : Nat)
+    (hg : glyphR g t x y ch h v X Y) : clipR g X Y := by
+  obtain ⟨i, j, _, _, _, hc, _⟩ := hg; exact hc
+
+theorem textR_clip (g : Geom) (s : List Nat) (t : TextSt) (X Y : Nat) (hr : textR g t s X Y) : clipR g X Y := by
+  induction s generalizing t with
+  | nil => exact hr.elim
+  | cons ch rest ih =>
+    simp only [textR] at hr
+    by_cases h13 : ch = 13
+    · simp only [h13, if_true] at hr; exact ih t hr
+    · simp only [h13, if_false] at hr
+      rcases hr with ⟨_, hg⟩ | hr
+      · exact glyphR_clip _ _ _ _ _ _ _ _ _ hg
+      · exact ih _ hr
+
+theorem active_xy (inp : TileIn) (inv : Bool) (w h : Nat) (shrink border : Int) (hb : 0 ≤ border) :
+    Spec.Tile.active (specCase inp inv w h shrink border) =
+      (border, border, border + (activeWH w h shrink border).1, border + (activeWH w h shrink border).2) := by
+  unfold Spec.Tile.active specCase activeWH qint
+  simp only []
+  by_cases hbo : border > 0
+  · simp only [hbo, decide_true, if_true, Prod.mk.injEq, true_and]; omega
+  · simp only [hbo, decide_false, Bool.false_eq_true, if_false, Prod.mk.injEq]
+    have : border = 0 := by omega
+    subst this
+    refine ⟨rfl, rfl, ?_, ?_⟩
+    · by_cases hs : shrink.emod 2 = 1 <;> simp [hs]
+    · by_cases hs : shrink.emod 4 / 2 = 1 <;> simp [hs]
+
+/-- one row band of the tile whose lit pixels are exactly the ink of one centred text: the Spec's centring clause holds -/
+theorem band_centred (inp : TileIn) (inv : Bool) (w h : Nat) (shrink border : Int) (hb : 0 ≤ border)
+    (A : Nat → Nat → Bool) (ya yb : Int) (t : TextSt) (s : List Nat)
+    (hlit : ∀ X Y, X < w → Y < h → (litIn inv A ya yb (X, Y) ↔ textR (tileGeo inv w h shrink border) t s X Y))
+    (hp : t.prop = true) (hsp : t.spacing = 0) (hh : 1 ≤ t.tsH) (hv : 1 ≤ t.tsV)
+    (h13 : 13 ∉ s) (he : edgeAlnum s = true) (hfit : s ≠ [] → TextFits (tileGeo inv w h shrink border) t s)
+    (hcx : t.cx = shr1 (Tile.constrain ((activeWH w h shrink border).1 - strWidth t s) 0 (activeWH w h shrink border).1)) :
+    Spec.Tile.centredIn (specCase inp inv w h shrink border) A ya yb = true := by
+  refine centredIn_of_region _ A ya yb (textR (tileGeo inv w h shrink border) t s) hlit ?_ ?_
+  · intro X Y hr
+    have := inClip_bounds (textR_clip _ s t X Y hr)
+    have e1 : (tileGeo inv w h shrink border).W = w := rfl
+    have e2 : (tileGeo inv w h shrink border).H = h := rfl
+    rw [e1, e2] at this
+    show X < w ∧ Y < h
+    omega
+  · by_cases hne : s = []
+    · left; subst hne; intro X Y hr; exact hr
+    · right
+      obtain ⟨c0, rest, pre, cL, hs0, hsL, ha0, haL⟩ := edge_decomp s hne he
+      have hf := hfit hne
+      obtain ⟨hall, ⟨XL, YL, hL, eL⟩, ⟨XR, YR, hR, eR⟩⟩ :=
+        text_ink_extent (tileGeo inv w h shrink border) t c0 cL rest pre s hs0 hsL h13 hp hsp hh hv ha0 haL
+          (tileGeo_box inv w h shrink border hb) hf
+      refine ⟨XL, XR, ?_, ⟨YL, hL⟩, ⟨YR, hR⟩, ?_⟩
+      · intro X Y hr
+        have := hall X Y hr
+        omega
+      · rw [active_xy inp inv w h shrink border hb]
+        simp only []
+        have ebx : (tileGeo inv w h shrink border).bx = border := rfl
+        have ebw : (tileGeo inv w h shrink border).bw = (activeWH w h shrink border).1 := rfl
+        rw [ebx] at eL eR
+        obtain ⟨f1, f2, _, _⟩ := hf
+        rw [ebw] at f2
+        have hsw : 1 ≤ strWidth t s := by have := hall XL YL hL; omega
+        have hbox := box_centred_within_one (activeWH w h shrink border).1 (strWidth t s) (by omega) (by omega)
+        simp only [] at hbox
+        rw [← hcx] at hbox
+        omega
+
+
+/-- every (non-empty) text the layout renders has its text box inside the active area -/
+def TileTextFits (inp : TileIn) (inv : Bool) (w h : Nat) (shrink border : Int) : Prop :=
+  ∀ t s, DOp.text t s ∈ (tileAcc inp w h shrink border).ops.toList → s ≠ [] →
+    TextFits (tileGeo inv w h shrink border) t s
+
+theorem renderTile_start (inp : TileIn) (inv : Bool) (w h : Nat) (shrink border : Int) :
+    renderTile inp inv w h shrink border =
+      ((tileAcc inp w h shrink border).ops.toList.map DOp.toOp).foldl applyOp (startCanvas inv w h shrink border) := by
+  rw [renderTile_unfold]; rfl
+
+theorem lit_rows (inv : Bool) (w h : Nat) (shrink border : Int) (X Y : Nat)
+    (hc : clipR (tileGeo inv w h shrink border) X Y) :
+    border ≤ (Y : Int) ∧ (Y : Int) < border + (activeWH w h shrink border).2 := by
+  obtain ⟨_, q2, _, _, _, q6, _, _⟩ := inClip_linear hc
+  have e1 : (tileGeo inv w h shrink border).byy = border := rfl
+  have e2 : (tileGeo inv w h shrink border).bh = (activeWH w h shrink border).2 := rfl
+  rw [e1] at q2 q6; rw [e2] at q6
+  omega
+
+/-- **centre**, one-line format: if the text box fits the active area, the ink is centred to within one pixel -/
+theorem centre_ok_fmt10 (inp : TileIn) (inv : Bool) (w h : Nat) (shrink border : Int) (hb : 0 ≤ border)
+    (hf : inp.fmt = 10) (hprop : (inp.styling.getD {}).fixedWidth = false)
+    (hsp : (inp.styling.getD {}).extraSp.emod 4 = 0)
+    (hlf : 10 ∉ inp.title) (hcr : 13 ∉ inp.title) (he : edgeAlnum inp.title = true)
+    (hfit : TileTextFits inp inv w h shrink border) :
+    Spec.Tile.centreOk (specCase inp inv w h shrink border) (getPx (renderTile inp inv w h shrink border)) = true := by
+  obtain ⟨t0, hops, hpt, hcx, _⟩ := tileAcc_fmt10 inp w h shrink border hf
+  have hrt : renderTile inp inv w h shrink border =
+      (renderText (startCanvas inv w h shrink border, t0) inp.title).1 := by
+    rw [renderTile_start, hops]; rfl
+  have hfit0 : inp.title ≠ [] → TextFits (tileGeo inv w h shrink border) t0 inp.title :=
+    hfit t0 inp.title (by rw [hops]; simp)
+  unfold Spec.Tile.centreOk
+  rw [active_xy inp inv w h shrink border hb]
+  have hcond : ((specCase inp inv w h shrink border).fmt = 10 ∨ (specCase inp inv w h shrink border).fmt = 11) ∧
+      (specCase inp inv w h shrink border).proportional = true ∧ (specCase inp inv w h shrink border).extraSp.emod 4 = 0 ∧
+      (specCase inp inv w h shrink border).noLF = true ∧ (specCase inp inv w h shrink border).edgeInk = true :=
+    ⟨Or.inl hf, by unfold specCase; simp [hprop], hsp, rfl, rfl⟩
+  rw [if_pos hcond]
+  simp only []
+  have hf' : (specCase inp inv w h shrink border).fmt = 10 := hf
+  rw [if_pos hf']
+  refine band_centred inp inv w h shrink border hb _ _ _ t0 inp.title ?_ (by rw [hpt.prop, hprop]; rfl)
+    (by rw [hpt.spacing, hsp]; rfl) hpt.tsH hpt.tsV.1 hcr he hfit0 hcx
+  intro X Y hX hY
+  rw [hrt]
+  have key := text_on_start inv w h shrink border t0 inp.title hlf hpt.wrap hpt.tcol hpt.tbg X Y hX hY
+  unfold litIn
+  simp only []
+  constructor
+  · rintro ⟨_, _, hl⟩; exact key.1 hl
+  · intro hr
+    have := lit_rows inv w h shrink border X Y (textR_clip _ _ _ X Y hr)
+    exact ⟨this.1, this.2, key.2 hr⟩
+
+
+/-- lit pixels after rendering two texts on the start canvas = union of the two ink regions -/
+theorem two_texts_on_start (inv : Bool) (w h : Nat) (shrink border : Int) (t1 t2 : TextSt) (s1 s2 : List Nat)
+    (hs1 : 10 ∉ s1) (hs2 : 10 ∉ s2) (hw1 : t1.wrap = false) (hc1 : t1.tcol = true) (hb1 : t1.tbg = true)
+    (hw2 : t2.wrap = false) (hc2 : t2.tcol = true) (hb2 : t2.tbg = true) (X Y : Nat) (hX : X < w) (hY : Y < h) :
+    (getPx (renderText ((renderText (startCanvas inv w h shrink border, t1) s1).1, t2) s2).1 X Y ≠ inv) ↔
+      (textR (tileGeo inv w h shrink border) t1 s1 X Y ∨ textR (tileGeo inv w h shrink border) t2 s2 X Y) := by
+  obtain ⟨hwf, hg, _⟩ := startCanvas_facts inv w h shrink border
+  have k1 := text_on_start inv w h shrink border t1 s1 hs1 hw1 hc1 hb1 X Y hX hY
+  have p1 := renderText_paint s1 hs1 _ hwf t1 hw1 (by rw [hb1, hc1])
+  have p2 := renderText_paint s2 hs2 _ p1.wf t2 hw2 (by rw [hb2, hc2])
+  have hg1 : (renderText (startCanvas inv w h shrink border, t1) s1).1.geo = tileGeo inv w h shrink border := by
+    rw [p1.geo, hg]
+  have hX8 : X < (renderText (startCanvas inv w h shrink border, t1) s1).1.geo.wib * 8 := by
+    rw [hg1]; unfold tileGeo; simp only []; omega
+  have hY' : Y < (renderText (startCanvas inv w h shrink border, t1) s1).1.geo.H := by rw [hg1]; exact hY
+  rw [hg1] at p2
+  by_cases hr : textR (tileGeo inv w h shrink border) t2 s2 X Y
+  · have := p2.inside X Y hX8 hY' hr
+    rw [this, hc2]
+    have : (tileGeo inv w h shrink border).inv = inv := rfl
+    rw [this]
+    cases inv <;> simp [hr]
+  · rw [p2.same X Y hX8 hY' hr, k1]
+    simp [hr]
+
+theorem lineHeight_small (t : TextSt) (h0 : 1 ≤ t.tsV) (h1 : t.tsV ≤ 4) :
+    (lineHeight t : Int) = (t.fp.bbH : Int) * t.tsV := by
+  obtain ⟨_, _, _, hall⟩ := font_tables_sized
+  obtain ⟨_, _, hbb, _⟩ := hall t.font
+  exact lineHeight_eq t (by omega) (by omega) (by unfold TextSt.fp; omega)
+
+/-- **centre**, two-line format: each line whose text box fits the active area is centred to within one pixel -/
+theorem centre_ok_fmt11 (inp : TileIn) (inv : Bool) (w h : Nat) (shrink border : Int) (hb : 0 ≤ border)
+    (hf : inp.fmt = 11) (hprop : (inp.styling.getD {}).fixedWidth = false)
+    (hsp : (inp.styling.getD {}).extraSp.emod 4 = 0)
+    (hlf1 : 10 ∉ inp.line1) (hcr1 : 13 ∉ inp.line1) (he1 : edgeAlnum inp.line1 = true)
+    (hlf2 : 10 ∉ inp.line2) (hcr2 : 13 ∉ inp.line2) (he2 : edgeAlnum inp.line2 = true)
+    (hfit : TileTextFits inp inv w h shrink border) :
+    Spec.Tile.centreOk (specCase inp inv w h shrink border) (getPx (renderTile inp inv w h shrink border)) = true := by
+  obtain ⟨t1, t2, hops, hpt1, hst, hcx1, hcy1, hcx2, hcy2⟩ := tileAcc_fmt11 inp w h shrink border hf
+  have hpt2 : PlainText inp t2 := hpt1.of_style hst
+  have hrt : renderTile inp inv w h shrink border =
+      (renderText ((renderText (startCanvas inv w h shrink border, t1) inp.line1).1, t2) inp.line2).1 := by
+    rw [renderTile_start, hops]; rfl
+  have hfit1 : inp.line1 ≠ [] → TextFits (tileGeo inv w h shrink border) t1 inp.line1 :=
+    hfit t1 inp.line1 (by rw [hops]; simp)
+  have hfit2 : inp.line2 ≠ [] → TextFits (tileGeo inv w h shrink border) t2 inp.line2 :=
+    hfit t2 inp.line2 (by rw [hops]; simp)
+  unfold Spec.Tile.centreOk
+  rw [active_xy inp inv w h shrink border hb]
+  have hcond : ((specCase inp inv w h shrink border).fmt = 10 ∨ (specCase inp inv w h shrink border).fmt = 11) ∧
+      (specCase inp inv w h shrink border).proportional = true ∧ (specCase inp inv w h shrink border).extraSp.emod 4 = 0 ∧
+      (specCase inp inv w h shrink border).noLF = true ∧ (specCase inp inv w h shrink border).edgeInk = true :=
+    ⟨Or.inr hf, by unfold specCase; simp [hprop], hsp, rfl, rfl⟩
+  rw [if_pos hcond]
+  simp only []
+  have hf' : ¬ (specCase inp inv w h shrink border).fmt = 10 := by
+    show ¬ inp.fmt = 10
+    omega
+  rw [if_neg hf']
+  have emid : border + (border + (activeWH w h shrink border).2 - border) / 2 = border + shr1 (activeWH w h shrink border).2 := by
+    unfold shr1
+    have : border + (activeWH w h shrink border).2 - border = (activeWH w h shrink border).2 := by omega
+    rw [this]
+  rw [emid]
+  have lh1 := lineHeight_small t1 hpt1.tsV.1 hpt1.tsV.2
+  have efp : t2.fp = t1.fp := by unfold TextSt.fp; rw [hst.font]
+  have ebyy : (tileGeo inv w h shrink border).byy = border := rfl
+  have key : ∀ X Y, X < w → Y < h → _ := fun X Y hX hY =>
+    two_texts_on_start inv w h shrink border t1 t2 inp.line1 inp.line2 hlf1 hlf2 hpt1.wrap hpt1.tcol hpt1.tbg
+      hpt2.wrap hpt2.tcol hpt2.tbg X Y hX hY
+  rw [Bool.and_eq_true]
+  constructor
+  · refine band_centred inp inv w h shrink border hb _ _ _ t1 inp.line1 ?_ (by rw [hpt1.prop, hprop]; rfl)
+      (by rw [hpt1.spacing, hsp]; rfl) hpt1.tsH hpt1.tsV.1 hcr1 he1 hfit1 hcx1
+    intro X Y hX hY
+    rw [hrt]
+    unfold litIn
+    simp only []
+    constructor
+    · rintro ⟨_, hlt, hl⟩
+      rcases (key X Y hX hY).1 hl with hr | hr
+      · exact hr
+      · exfalso
+        have := (textR_yrange _ _ t2 (by have := hpt2.tsV.1; omega) X Y hr).1
+        rw [hcy2, ebyy] at this
+        omega
+    · intro hr
+      have r1 := lit_rows inv w h shrink border X Y (textR_clip _ _ _ X Y hr)
+      have r2 := (textR_yrange _ _ t1 (by have := hpt1.tsV.1; omega) X Y hr).2
+      rw [hcy1, ebyy, lh1] at r2
+      exact ⟨r1.1, by omega, (key X Y hX hY).2 (Or.inl hr)⟩
+  · refine band_centred inp inv w h shrink border hb _ _ _ t2 inp.line2 ?_ (by rw [hpt2.prop, hprop]; rfl)
+      (by rw [hpt2.spacing, hsp]; rfl) hpt2.tsH hpt2.tsV.1 hcr2 he2 hfit2 hcx2
+    intro X Y hX hY
+    rw [hrt]
+    unfold litIn
+    simp only []
+    constructor
+    · rintro ⟨hge, _, hl⟩
+      rcases (key X Y hX hY).1 hl with hr | hr
+      · exfalso
+        have r2 := (textR_yrange _ _ t1 (by have := hpt1.tsV.1; omega) X Y hr).2
+        rw [hcy1, ebyy, lh1] at r2
+        omega
+      · exact hr
+    · intro hr
+      have r1 := lit_rows inv w h shrink border X Y (textR_clip _ _ _ X Y hr)
+      have r2 := (textR_yrange _ _ t2 (by have := hpt2.tsV.1; omega) X Y hr).1
+      rw [hcy2, ebyy] at r2
+      exact ⟨by omega, r1.2, (key X Y hX hY).2 (Or.inr hr)⟩
+
+
+/-- the strings the one/two-line formats render -/
+def plainStrings (inp : TileIn) : List (List Nat) := if inp.fmt = 10 then [inp.title] else [inp.line1, inp.line2]
+
+/-- **centre** (`Spec.Tile.centreOk`): formats 10/11, proportional, no extra spacing; rendered strings without LF/CR
+whose first and last characters are ASCII letters or digits (the Spec's `noLF`, `edgeInk`).  Hypothesis beyond the
+Spec's own guard ("the observed ink is strictly inside the active area"): every rendered text box fits the active area
+(`TileTextFits`) — hence `_partial`.  Then in every row band the first/last lit columns are exactly the ends of the text
+box, and left and right margin differ by at most one pixel. -/
+theorem centre_ok_partial (inp : TileIn) (inv : Bool) (w h : Nat) (shrink border : Int) (hb : 0 ≤ border)
+    (hstr : ∀ s ∈ plainStrings inp, 10 ∉ s ∧ 13 ∉ s ∧ edgeAlnum s = true)
+    (hfit : TileTextFits inp inv w h shrink border) :
+    Spec.Tile.centreOk (specCase inp inv w h shrink border) (getPx (renderTile inp inv w h shrink border)) = true := by
+  by_cases hcond : ((specCase inp inv w h shrink border).fmt = 10 ∨ (specCase inp inv w h shrink border).fmt = 11) ∧
+      (specCase inp inv w h shrink border).proportional = true ∧ (specCase inp inv w h shrink border).extraSp.emod 4 = 0 ∧
+      (specCase inp inv w h shrink border).noLF = true ∧ (specCase inp inv w h shrink border).edgeInk = true
+  · obtain ⟨hfmt, hprop, hsp, _, _⟩ := hcond
+    have hprop' : (inp.styling.getD {}).fixedWidth = false := by
+      have : (!(inp.styling.getD {}).fixedWidth) = true := hprop
+      simpa using this
+    rcases hfmt with hf | hf
+    · have hf' : inp.fmt = 10 := hf
+      obtain ⟨a, b, c⟩ := hstr inp.title (by unfold plainStrings; rw [if_pos hf']; simp)
+      exact centre_ok_fmt10 inp inv w h shrink border hb hf' hprop' hsp a b c hfit
+    · have hf' : inp.fmt = 11 := hf
+      have h10 : ¬ inp.fmt = 10 := by omega
+      obtain ⟨a1, b1, c1⟩ := hstr inp.line1 (by unfold plainStrings; rw [if_neg h10]; simp)
+      obtain ⟨a2, b2, c2⟩ := hstr inp.line2 (by unfold plainStrings; rw [if_neg h10]; simp)
+      exact centre_ok_fmt11 inp inv w h shrink border hb hf' hprop' hsp a1 b1 c1 a2 b2 c2 hfit
+  · unfold Spec.Tile.centreOk
+    rw [if_neg hcond]
+
+/-- **all clauses of `Spec.Tile.check` together** for a rendering and its inverted twin (determinism holds by
+construction: `renderTile` is a function), under the hypotheses of `centre_ok_partial` -/
+theorem tile_check_partial (inp : TileIn) (inv : Bool) (w h : Nat) (shrink border : Int) (hb : 0 ≤ border)
+    (hstr : ∀ s ∈ plainStrings inp, 10 ∉ s ∧ 13 ∉ s ∧ edgeAlnum s = true)
+    (hfit : TileTextFits inp inv w h shrink border) :
+    Spec.Tile.check (specCase inp inv w h shrink border)
+      (renderTile inp inv w h shrink border).geo.W (renderTile inp inv w h shrink border).geo.H
+      (renderTile inp inv w h shrink border).bytes.size (renderTile inp (!inv) w h shrink border).bytes.size
+      (getPx (renderTile inp inv w h shrink border)) (getPx (renderTile inp (!inv) w h shrink border))
+      (tileColours inp).1 (tileColours inp).2 true = none := by
+  have s1 := tile_size_ok inp inv w h shrink border
+  have s2 := (tile_size_ok inp (!inv) w h shrink border).1.2.2
+  simp only [] at s1
+  have hsz : (renderTile inp (!inv) w h shrink border).bytes.size = (renderTile inp inv w h shrink border).bytes.size := by
+    rw [s2, s1.1.2.2]
+  unfold Spec.Tile.check
+  rw [hsz, s1.2, tile_active_ok, tile_inversion_ok, tile_colours_ok, centre_ok_partial inp inv w h shrink border hb hstr hfit]
+  rfl
+
+/-- the text operations of an operation list (decidable view used by the examples) -/
+def textOf : DOp → Option (TextSt × List Nat)
+  | .text t s => some (t, s)
+  | _ => none
+
+/-- non-vacuity (one line): "Ab1" on a 64×32 tile: box at x = 24, width 15 (margins 24 / 25), y = 12, height 8 -/
+example :
+    let inp : TileIn := { fmt := 10, title := [65, 98, 49] }
+    (∀ s ∈ plainStrings inp, 10 ∉ s ∧ 13 ∉ s ∧ edgeAlnum s = true) ∧ TileTextFits inp false 64 32 0 0 := by
+  refine ⟨by decide, ?_⟩
+  intro t s hm _
+  have hops : (tileAcc { fmt := 10, title := [65, 98, 49] } ((64 : Nat) : Int) ((32 : Nat) : Int) 0 0).ops.toList.map textOf =
+      [some ({ font := 0, prop := true, spacing := 0, cx := 24, cy := 12, tcol := true, tbg := true, tsH := 1,
+               tsV := 1, wrap := false }, [65, 98, 49])] := by decide +kernel
+  have := List.mem_map_of_mem (f := textOf) hm
+  rw [hops] at this
+  simp only [textOf, List.mem_singleton, Option.some.injEq, Prod.mk.injEq] at this
+  obtain ⟨rfl, rfl⟩ := this
+  constructor <;> decide +kernel
+
+/-- non-vacuity (two lines, size 2, width shrunk by one): "Hi" / "7xZ" on a 64×32 tile -/
+example :
+    let inp : TileIn := { fmt := 11, line1 := [72, 105], line2 := [55, 120, 90], styling := some { unfSize := 2 } }
+    (∀ s ∈ plainStrings inp, 10 ∉ s ∧ 13 ∉ s ∧ edgeAlnum s = true) ∧ TileTextFits inp true 64 32 1 0 := by
+  refine ⟨by decide, ?_⟩
+  intro t s hm _
+  have hops : (tileAcc { fmt := 11, line1 := [72, 105], line2 := [55, 120, 90], styling := some { unfSize := 2 } }
+      ((64 : Nat) : Int) ((32 : Nat) : Int) 1 0).ops.toList.map textOf =
+      [some ({ font := 0, prop := true, spacing := 0, cx := 22, cy := 0, tcol := true, tbg := true, tsH := 2,
+               tsV := 2, wrap := false }, [72, 105]),
+       some ({ font := 0, prop := true, spacing := 0, cx := 14, cy := 16, tcol := true, tbg := true, tsH := 2,
+               tsV := 2, wrap := false }, [55, 120, 90])] := by decide +kernel
+  have := List.mem_map_of_mem (f := textOf) hm
+  rw [hops] at this
+  simp only [textOf, List.mem_cons, Option.some.injEq, Prod.mk.injEq, List.mem_nil_iff, or_false] at this
+  rcases this with ⟨rfl, rfl⟩ | ⟨rfl, rfl⟩ <;> constructor <;> decide +kernel
 
 end RawPanelVerif.C18
